@@ -33,6 +33,21 @@ def run(ctx):
         cases += T.random_traces(ctx, spec, n_prog)
         if ctx.counts.get("compile_fail", 0) > 0.3 * n_prog:
             raise HarnessFault("generator degenerate: >30% of generated kernels do not compile")
+    # kernel level: the Lean evaluator runs the kernel's *source* (Model/Lang.lean) and the tracer
+    # model consumes the operations it performs
+    from .. import lang as L
+    table = L.sx_spec_table(spec)
+    klines = []
+    for c in cases:
+        fns = [L.tw_fn(k) for k in c.kernels]
+        args = " ".join(L.sx_val(a) for a in c.rargs)
+        klines.append(f"(LANG (trace {table} {L.sx_program(fns)} main ({args})))")
+    kres = ctx.driver(klines)
+    for c, kr in zip(cases, kres):
+        if kr.startswith("bad") or kr == "fuel":
+            raise HarnessFault(f"driver could not evaluate a kernel ({kr}): {c.source[-300:]}")
+        if T.norm_result(kr) != T.norm_result(c.impl):
+            ctx.disagree(c.as_case(), c.impl[:400], kr[:400], "kernel source evaluated in Lean + tracer model vs TraceInterpreter")
     refs = ctx.driver([f"(C01 (ref {c.req}))" for c in cases])
     trs = ctx.driver([f"(C01 (trace {c.req}))" for c in cases])
     ctx.traces_validated = len(cases)
